@@ -24,7 +24,7 @@ class Untranslatable(Exception):
     pass
 
 
-TOK = re.compile(r"\s*(?:(//[^\n]*)|(0x[0-9a-fA-F]+|\d+)|([A-Za-z_][A-Za-z_0-9]*(?:::[A-Za-z_][A-Za-z_0-9]*)*)|(=>|\+=|!=|==|>=|<=|&&|\|\||[-+!<>(){};:,.=\[\]&*]))")
+TOK = re.compile(r"\s*(?:(//[^\n]*)|(0x[0-9a-fA-F]+|\d+)|([A-Za-z_][A-Za-z_0-9]*(?:::[A-Za-z_][A-Za-z_0-9]*)*)|(=>|\+=|!=|==|>=|<=|&&|\|\||[-+!<>(){};:,.=\[\]&*?]))")
 
 
 def tokenize(src):
@@ -112,6 +112,13 @@ class Parser:
             it = self.expr(nostruct=True)
             body = self.block()
             return ("for", v, it, body)
+        if t == "loop":
+            self.eat()
+            return ("loop", self.block())
+        if t == "break":
+            self.eat()
+            self.eat(";")
+            return ("break",)
         if t == "match":
             m = self.match()
             if self.peek() == ";":
@@ -240,6 +247,15 @@ class Parser:
                 self.eat()
                 return ("unit",)
             e = self.expr()
+            if self.peek() == ",":
+                items = [e]
+                while self.peek() == ",":
+                    self.eat()
+                    if self.peek() == ")":
+                        break
+                    items.append(self.expr())
+                self.eat(")")
+                return ("tuple", items)
             self.eat(")")
             return e
         if re.fullmatch(r"\d+|0x[0-9a-fA-F]+", t or ""):
@@ -247,6 +263,9 @@ class Parser:
             return ("num", int(t, 0))
         if t == "vec" and self.peek(1) == "!":
             self.eat(); self.eat(); self.eat("[")
+            if self.peek() == "]":
+                self.eat()
+                return ("vec0",)
             e = self.expr()
             self.eat("]")
             return ("vec1", e)
@@ -267,6 +286,9 @@ class Parser:
                         self.eat()
                 self.eat(")")
                 e = ("call", e, args)
+            elif self.peek() == "?":
+                self.eat()
+                e = ("try", e)
             elif self.peek() == "{" and not nostruct and e[0] == "path" and len(e[1]) == 1 and e[1][0][0].isupper():
                 self.eat()
                 fields = []
@@ -568,8 +590,21 @@ def protocol_fns(src):
         j += 1
     impl = src[i + 1:j]
     out = {}
-    for fm in re.finditer(r"(?:pub\s+)?fn\s+(\w+)\s*(?:<[^>(]*>)?\s*\(", impl):
-        k, depth = fm.end() - 1, 0
+    for fm in re.finditer(r"(?:pub\s+)?fn\s+(\w+)\s*", impl):
+        k = fm.end()
+        if k < len(impl) and impl[k] == "<":          # generic parameters: skip to the matching `>`
+            depth = 0
+            for k in range(k, len(impl)):
+                depth += impl[k] == "<"
+                depth -= impl[k] == ">"
+                if depth == 0:
+                    break
+            k += 1
+            while k < len(impl) and impl[k].isspace():
+                k += 1
+        if k >= len(impl) or impl[k] != "(":
+            continue
+        depth = 0
         for e in range(k, len(impl)):
             depth += impl[e] == "("
             depth -= impl[e] == ")"
@@ -606,6 +641,8 @@ class ProtoTranslator:
                 return env[p[0]]
             if len(p) == 2 and p[0] in env and env[p[0]][1] == "packet" and p[1] == "device_address":
                 return ("%s.addr" % env[p[0]][0], "addr")
+            if len(p) == 2 and p[0] in env and env[p[0]][1] == "handler" and p[1] == "1":
+                return ("%s.2.captureAll" % env[p[0]][0], "bool")
             raise Untranslatable("path " + ".".join(p))
         if k == "bool":
             a, ta = self.expr(e[2], env)
@@ -699,7 +736,7 @@ class ProtoTranslator:
                 b, tb = self.expr(e[2][1], env)
                 if (tx, tb) != ("packet", "bool"):
                     raise Untranslatable("handle_packet arguments")
-                return "%slet s := s.dispatch %s %s\n%s" % (ind, x, b, self.stmts(rest, env, ind))
+                return "%slet s := handlePacket s %s %s\n%s" % (ind, x, b, self.stmts(rest, env, ind))
             raise Untranslatable("statement")
         if k == "if" and st[1][0] == "cond":
             c, tc = self.expr(st[1][1], env)
@@ -709,6 +746,119 @@ class ProtoTranslator:
             b = self.stmts((st[3] or []) + rest, env, ind + "  ")
             return "%sif %s then\n%s\n%selse\n%s" % (ind, c, a, ind, b)
         raise Untranslatable("statement " + k)
+
+
+class XchgTranslator(ProtoTranslator):
+    """translates `exchange_packet` / `exchange_packets`: `self.send_packet(&packet)?; wait_closure(); loop { … }` and what
+    follows the loop. The loop becomes a function recursive on a fuel argument (`none` = out of fuel); the caller supplies
+    `rxQueue.length + 1`, and the theorems show that this is never exhausted. `R::try_from_packet` is `decode k` for the
+    kind `k` of the reply type; the vector `events` of `exchange_packets` is threaded through the loop."""
+
+    def __init__(self, many, loop_name):
+        self.many, self.loop_name = many, loop_name
+
+    def again(self, ind):
+        return "%s%s k capture_all_addresses fuel s%s" % (ind, self.loop_name, " events" if self.many else "")
+
+    def xresult(self, e, env):
+        if e[0] == "call" and e[1] == ("path", ["Ok"]) and len(e[2]) == 1 and e[2][0][0] == "path" and len(e[2][0][1]) == 1:
+            v = e[2][0][1][0]
+            if v in env and env[v][1] == ("events" if self.many else "event"):
+                return "(s, .ok %s)" % env[v][0]
+        if e[0] == "call" and e[1] == ("path", ["Err"]) and len(e[2]) == 1:
+            a = e[2][0]
+            if a == ("path", ["ProtocolError::PacketTimeout"]):
+                return "(s, .error .packetTimeout)"
+            if a[0] == "call" and a[1] == ("path", ["ProtocolError::InterfaceError"]) and len(a[2]) == 1 and a[2][0][0] == "path":
+                v = a[2][0][1]
+                if len(v) == 1 and v[0] in env and env[v[0]][1] == "iferr_other":
+                    return "(s, .error (.interface %s))" % env[v[0]][0]
+        raise Untranslatable("result of an exchange")
+
+    def lstmts(self, ss, env, ind):
+        """statements inside the loop body; falling off the end is the next iteration"""
+        if not ss:
+            return self.again(ind)
+        st, rest = ss[0], ss[1:]
+        k = st[0]
+        if k == "break":
+            return ind + self.after(env)
+        if k == "return":
+            return "%ssome %s" % (ind, self.xresult(st[1], env))
+        if k in ("do", "tail") and st[1][0] == "match":
+            return self.lmatch(st[1], env, ind, rest)
+        if k == "if":
+            c = st[1]
+            if c[0] == "cond":
+                t, ty = self.expr(c[1], env)
+                if ty != "bool":
+                    raise Untranslatable("condition")
+                return "%sif %s then\n%s\n%selse\n%s" % (ind, t, self.lstmts(st[2] + rest, env, ind + "  "), ind, self.lstmts((st[3] or []) + rest, env, ind + "  "))
+            _, ctor, v, scrut = c
+            if ctor == "Ok" and scrut[0] == "call" and scrut[1] == ("path", ["R::try_from_packet"]) and len(scrut[2]) == 1:
+                x, tx = self.expr(scrut[2][0], env)
+                if tx != "packet":
+                    raise Untranslatable("try_from_packet of " + tx)
+                env2 = dict(env)
+                env2[v] = (v, "event")
+                return ("%smatch decode k %s with\n%s| .ok %s =>\n%s\n%s| _ =>\n%s"
+                        % (ind, x, ind, v, self.lstmts(st[2] + rest, env2, ind + "  "), ind, self.lstmts((st[3] or []) + rest, env, ind + "  ")))
+            raise Untranslatable("if let")
+        if k == "do" and self.many and st[1][0] == "call" and st[1][1] == ("path", ["events", "push"]) and len(st[1][2]) == 1 and st[1][2][0][0] == "path":
+            v = st[1][2][0][1]
+            if len(v) == 1 and v[0] in env and env[v[0]][1] == "event":
+                return "%slet events := events ++ [%s]\n%s" % (ind, env[v[0]][0], self.lstmts(rest, env, ind))
+        raise Untranslatable("statement in the receive loop: " + k)
+
+    def lmatch(self, m, env, ind, rest):
+        _, scrut, arms = m
+        pats = {a[0][0]: a for a in arms}
+        if scrut == ("call", ("path", ["self", "interface", "try_get_packet"]), []) and sorted(pats) == ["Err", "Ok"]:
+            (_, pv), okb = pats["Ok"]
+            (_, ev), errb = pats["Err"]
+            env_ok, env_err = dict(env), dict(env)
+            env_ok[pv] = (pv, "packet")
+            env_err[ev] = (ev, "iferr")
+            return ("%smatch s.ifaceGet with\n%s| (s, .ok %s) =>\n%s\n%s| (s, .error %s) =>\n%s"
+                    % (ind, ind, pv, self.lstmts(okb + rest, env_ok, ind + "  "), ind, ev, self.lstmts(errb + rest, env_err, ind + "  ")))
+        if scrut[0] == "path" and len(scrut[1]) == 1 and env.get(scrut[1][0], (None, None))[1] == "iferr" and sorted(pats) == ["InterfaceError::NoPacketReceived", "_"]:
+            v = env[scrut[1][0]][0]
+            env2 = dict(env)
+            env2[scrut[1][0]] = ("t", "iferr_other")
+            return ("%smatch %s with\n%s| .noPacket =>\n%s\n%s| .other t =>\n%s"
+                    % (ind, v, ind, self.lstmts(pats["InterfaceError::NoPacketReceived"][1] + rest, env, ind + "  "), ind, self.lstmts(pats["_"][1] + rest, env2, ind + "  ")))
+        raise Untranslatable("match in the receive loop")
+
+    def function(self, body, lean_name, ety):
+        """returns the Lean text of the loop function and of the exchange function"""
+        env = {"packet": ("packet", "packet"), "capture_all_addresses": ("capture_all_addresses", "bool")}
+        ss = list(body)
+        if self.many:
+            if not (ss and ss[0] == ("letmut", "events", ("vec0",))):
+                raise Untranslatable("exchange_packets does not start with `let mut events = vec![]`")
+            ss = ss[1:]
+            env["events"] = ("events", "events")
+        if not (len(ss) >= 4 and ss[0] == ("do", ("try", ("call", ("path", ["self", "send_packet"]), [("path", ["packet"])])))
+                and ss[1] == ("do", ("call", ("path", ["wait_closure"]), [])) and ss[2][0] == "loop" and len(ss) == 4 and ss[3][0] in ("tail", "return")):
+            raise Untranslatable("shape of the exchange function")
+        tail = ss[3][1]
+        self.after = lambda env2: "some " + self.xresult(tail, env2)
+        loop_body = self.lstmts(ss[2][1], env, "    ")
+        acc_sig = " → List Event" if self.many else ""
+        acc_pat = ", _" if self.many else ""
+        acc_var = ", events" if self.many else ""
+        loop = ("/-- the receive loop of `Protocol::%s`, one iteration per unit of fuel (`none`: out of fuel) -/\n"
+                "def %s (k : Kind) (capture_all_addresses : Bool) : Nat → Proto%s → Option (Proto × Except PErr %s)\n"
+                "  | 0, _%s => none\n  | fuel + 1, s%s =>\n%s\n" % (lean_name_rust(lean_name), self.loop_name, acc_sig, ety, acc_pat, acc_var, loop_body))
+        fn = ("/-- `self` is `s`, the reply type `R` is the event type of kind `k` — translated from `Protocol::%s` in src/protocol.rs -/\n"
+              "def %s (s : Proto) (packet : Packet) (k : Kind) (capture_all_addresses : Bool) : Option (Proto × Except PErr %s) :=\n"
+              "  match sendPacket s packet with\n  | (s, .error e) => some (s, .error e)\n  | (s, .ok _) =>\n    let s := s.waitMark\n    %s k capture_all_addresses (s.rxQueue.length + 1) s%s\n"
+              % (lean_name_rust(lean_name), lean_name, ety, self.loop_name, " []" if self.many else ""))
+        return loop + "\n" + fn
+
+
+def lean_name_rust(n):
+    return {"exchange": "exchange_packet", "exchangeAll": "exchange_packets"}[n]
 
 
 def translate_protocol(src):
@@ -728,6 +878,23 @@ def translate_protocol(src):
             out.append("/-- `Protocol::%s` could not be translated on this run (%s): this is the hand-written model's definition -/\ndef %s %s :=\n  %s\n"
                        % (rust_name, str(ex).replace("-/", ""), lean_name, sig, fallback))
 
+    # handle_packet: `for h in self.handlers.values_mut() { if COND { h.0(packet, self); } }` is a fold over the table in key order
+    try:
+        if "handle_packet" not in fns or fns["handle_packet"][0] != "&self,packet:&Packet,owned_address:bool":
+            raise Untranslatable("signature")
+        hb = re.sub(r"//[^\n]*", "", fns["handle_packet"][1])
+        hm = re.fullmatch(r"\{\s*(?:unsafe\s*\{)?\s*for\s+(\w+)\s+in\s+(?:transmute::<&Self,\s*&mut\s+Self>\(self\)|self)\s*\.handlers\s*\.values_mut\(\)\s*\{\s*if\s+(.*?)\s*\{\s*(\w+)\.0\(\s*(\w+),\s*(?:transmute\(self\)|self)\s*\)\s*;\s*\}\s*\}\s*\}?\s*\}", hb, re.S)
+        if not hm or hm.group(1) != hm.group(3) or hm.group(4) != "packet":
+            raise Untranslatable("shape of handle_packet")
+        cond, cty = tr.expr(Parser(tokenize(hm.group(2))).expr(nostruct=True), {"owned_address": ("owned_address", "bool"), hm.group(1): (hm.group(1), "handler")})
+        if cty != "bool":
+            raise Untranslatable("condition of handle_packet")
+        out.append("/-- translated from `Protocol::handle_packet` in src/protocol.rs: the loop over `handlers.values_mut()` is a fold over the table in key order; invoking a closure is `Proto.invoke` -/\n"
+                   "def handlePacket (s : Proto) (packet : Packet) (owned_address : Bool) : Proto :=\n  s.handlers.foldl (fun s %s => if %s then s.invoke %s.2 packet else s) s\n" % (hm.group(1), cond, hm.group(1)))
+    except (Untranslatable, KeyError, TypeError, IndexError) as ex:
+        missing.append("handle_packet")
+        out.append("/-- `Protocol::handle_packet` could not be translated on this run (%s): this is the hand-written model's definition -/\n"
+                   "def handlePacket (s : Proto) (packet : Packet) (owned_address : Bool) : Proto :=\n  s.dispatch packet owned_address\n" % str(ex).replace("-/", ""))
     emit("tick", "(s : Proto) : Proto × Except PErr Unit", "tick", "&mutself", {}, "s.tick", "`self` is `s` (rebound after every effect)")
     emit("sendPacket", "(s : Proto) (packet : Packet) : Proto × Except PErr Unit", "send_packet", "&mutself,packet:&Packet", {"packet": ("packet", "packet")},
          "s.sendPacket packet", "`self` is `s`")
@@ -752,6 +919,39 @@ def translate_protocol(src):
         missing.append("get_next_handler_id")
         out.append("/-- `Protocol::get_next_handler_id` could not be translated on this run (%s): this is the hand-written model's definition -/\n"
                    "def nextHandlerId (s : Proto) : Nat :=\n  nextId (s.handlers.map Prod.fst)\n" % str(ex).replace("-/", ""))
+    # add_packet_handler: `let id = self.get_next_handler_id(); self.handlers.insert(id, (handler, capture)); Ok(id)`
+    try:
+        if "add_packet_handler" not in fns:
+            raise Untranslatable("signature")
+        prm = re.sub(r"#\[cfg\([^\]]*\)\]", "", fns["add_packet_handler"][0])
+        if not re.fullmatch(r"&'smutself,(handler:Box<dynFnMut\(&Packet,&mutSelf\)(\+Send)?\+'a>,)+capture_all_addresses:bool,?", prm):
+            raise Untranslatable("parameters " + prm)
+        b = Parser(tokenize(fns["add_packet_handler"][1])).block()
+        if not (len(b) == 3 and b[0] == ("let", "id", ("call", ("path", ["self", "get_next_handler_id"]), []))
+                and b[1] == ("do", ("call", ("path", ["self", "handlers", "insert"]), [("path", ["id"]), ("tuple", [("path", ["handler"]), ("path", ["capture_all_addresses"])])]))
+                and b[2] == ("tail", ("call", ("path", ["Ok"]), [("path", ["id"])]))):
+            raise Untranslatable("shape of add_packet_handler")
+        out.append("/-- `self` is `s`; the closure and its flag are `h` — translated from `Protocol::add_packet_handler` in src/protocol.rs -/\n"
+                   "def addHandler (s : Proto) (h : Handler) : Proto × Nat :=\n  let id := nextHandlerId s\n  let s := s.insertKey id h\n  (s, id)\n")
+    except (Untranslatable, KeyError, TypeError, IndexError) as ex:
+        missing.append("add_packet_handler")
+        out.append("/-- `Protocol::add_packet_handler` could not be translated on this run (%s): this is the hand-written model's definition -/\n"
+                   "def addHandler (s : Proto) (h : Handler) : Proto × Nat :=\n  s.add h\n" % str(ex).replace("-/", ""))
+    # the two exchange functions
+    for lean_name, rust_name, many, loop_name, ety, fb in (("exchange", "exchange_packet", False, "exchangeLoop", "Event", "some (s.exchange packet k capture_all_addresses)"),
+                                                         ("exchangeAll", "exchange_packets", True, "exchangeAllLoop", "(List Event)", "some (s.exchangeAll packet k capture_all_addresses)")):
+        try:
+            if rust_name not in fns or fns[rust_name][0] != "&mutself,packet:Packet,capture_all_addresses:bool,wait_closure:F,":
+                raise Untranslatable("signature " + fns.get(rust_name, ("?",))[0])
+            body = Parser(tokenize(fns[rust_name][1])).block()
+            out.append(XchgTranslator(many, loop_name).function(body, lean_name, ety))
+        except (Untranslatable, KeyError, TypeError, IndexError) as ex:
+            missing.append(rust_name)
+            acc_sig, acc_pat, acc_var, acc_arg = ((" → List Event", ", _", ", events", " events") if many else ("", "", "", ""))
+            out.append("/-- `Protocol::%s` could not be translated on this run (%s): these are the hand-written model's definitions -/\n"
+                       "def %s (k : Kind) (capture_all_addresses : Bool) : Nat → Proto%s → Option (Proto × Except PErr %s)\n  | 0, _%s => none\n  | _ + 1, s%s => some (s.%s k capture_all_addresses%s s.rxQueue)\n\n"
+                       "def %s (s : Proto) (packet : Packet) (k : Kind) (capture_all_addresses : Bool) : Option (Proto × Except PErr %s) :=\n  %s\n"
+                       % (rust_name, str(ex).replace("-/", ""), loop_name, acc_sig, ety, acc_pat, acc_var, loop_name, acc_arg, lean_name, ety, fb))
     text = ("import RossModel.Protocol\n"
             "/-! GENERATED by bin/extract (bin/rust2lean.py) from src/protocol.rs of the repository under verification — do not edit.\n"
             "Every run of a check regenerates this file from /repo's working tree before building the theorems. -/\n"
